@@ -1,7 +1,8 @@
 (* C05 — Pending transactions: deferred, executed at most once, always consumed.
    Stated on the serial specification, which the implementation model equals (C04).
    Only property theorems, their assumptions and non-vacuity examples.          *)
-From Fnd Require Import Base.Prelude Model.Cache Model.Nonce Model.Batch Proofs.BatchProofs Proofs.PendingProofs.
+From Fnd Require Import Base.Prelude Model.Cache Model.Nonce Model.Batch Model.Auth Model.Gate Model.Pipeline
+  Proofs.BatchProofs Proofs.PendingProofs Proofs.AuthProofs Proofs.PipelineProofs.
 
 (* (1) a submission only records the request: exactly one key changes *)
 Theorem C05_submit_records_only : forall l id s n bi k,
@@ -44,3 +45,76 @@ Example C05_example :
   (List.map (List.map (fun x => match snd x with IOk _ _ _ => 1 | IErr INotFound => 0 | IErr _ => 2 end)) out,
    led_get l (pk 1), led_get l (pk 2), count_exec 1 out) = ([[1; 0; 0]; [1; 0]], [], [], 1%nat).
 Proof. vm_compute. reflexivity. Qed.
+
+(* ---- whole invocations: gate + authentication + pending store + batch / task execution (Model/Pipeline.v) ---- *)
+
+(* (6) "a submission that fails validation records nothing": a request refused by the gate (malformed creator,
+       disabled method, not the robot) or by authentication leaves the ledger as it was *)
+Theorem C05_refused_records_nothing : forall e l r,
+  match snd (p_step e l r) with RGate _ | RAuth _ => fst (p_step e l r) = l | _ => True end.
+Proof. exact refused_unchanged. Qed.
+Print Assumptions C05_refused_records_nothing.
+
+(* (7) the composed pipeline (layered caches) equals its serial specification, for every history of invocations *)
+Theorem C05_pipeline_refines : forall e h l m, leq l m ->
+  snd (p_run e l h) = snd (q_run e m h) /\ leq (fst (p_run e l h)) (fst (q_run e m h)).
+Proof. exact pipeline_refines. Qed.
+Print Assumptions C05_pipeline_refines.
+
+(* (8) deferred, and only for whom it was authorised: over any history of invocations that starts without pending
+       records, every transaction a batch executes was listed by the robot and had been submitted earlier by a request
+       that passed the gate and authenticated; the executed record names exactly the authenticated address and nonce -
+       and such a request carried the required number of genuine signatures (C01) *)
+Theorem C05_executed_was_authorised : forall e h1 cr ids l0, data_only (pe_bodies e) ->
+  (forall id, led_get l0 (pk id) = []) ->
+  let l := fst (p_run e l0 h1) in
+  forall rs, snd (p_step e l (PBatch cr ids)) = RItems rs ->
+  is_robot (pe_cfg e) cr = true /\
+  forall id r, In (id, r) (combine ids rs) -> r <> IErr INotFound -> authorised h1 id (led_get l (pk id)).
+Proof. exact p_executed_was_authorised. Qed.
+Print Assumptions C05_executed_was_authorised.
+
+Theorem C05_authorised_is_signed : forall h id rec, authorised h id rec ->
+  exists cr i o bi, In (PSubmit cr id i bi) h /\ auth i = Ok o /\ rec = [r_addr o; dec_val (r_nonce o); bi] /\
+    exists n ktypes, a_acl i = AclOk (r_addr o) false false n ktypes /\
+      (1 <= count_genuine (the_kis i) (sig_args i) (a_sigs i) (the_msg i))%nat /\
+      (required n (n_signers i) <= count_genuine (the_kis i) (sig_args i) (a_sigs i) (the_msg i))%nat.
+Proof. exact authorised_is_signed. Qed.
+Print Assumptions C05_authorised_is_signed.
+
+(* (9) "no business effect until a batch lists it": the data the bodies write changes only through a batch of the
+       robot or through a task list containing a request that authenticates - never through a submission *)
+Theorem C05_data_change_needs_authority : forall e l r k,
+  led_get (fst (p_step e l r)) (dk k) <> led_get l (dk k) ->
+  match r with
+  | PSubmit _ _ _ _ => False
+  | PBatch cr _ => is_robot (pe_cfg e) cr = true
+  | PTasks _ ts => exists t o, In t ts /\ auth (fst t) = Ok o
+  end.
+Proof. exact p_data_change_needs_authority. Qed.
+Print Assumptions C05_data_change_needs_authority.
+
+(* (10) "executed at most once over any sequence of batches", for whole invocations: submissions, batches and task lists
+        by any creators in any order, any multisets of ids *)
+Theorem C05_pipeline_at_most_once : forall e h l0 id, data_only (pe_bodies e) ->
+  (executions id h (snd (p_run e l0 h)) <= recorded id h (snd (p_run e l0 h)) + present l0 id)%nat.
+Proof. exact p_executed_at_most_once. Qed.
+Print Assumptions C05_pipeline_at_most_once.
+
+Example C05_pipeline_example :
+  let k1 := [107; 49]%N in
+  let fn := [115]%N in let cc := [99]%N in
+  let base := [[]; cc; cc; [98]%N; [49; 55; 48; 48; 48; 48; 48; 48; 48; 48; 48; 48; 49]%N; k1] in
+  let msg := fn ++ concat base in
+  let tbl := [(k1, KI 1 0 false)] in
+  let mk sg := AuthIn 2 fn (base ++ [[115]%N]) cc cc (AclOk 9 false false 1 [0]%N) tbl [sg] in
+  let m := Method 1 MTx true GNone false in
+  let e := PEnv (GCfg 77 5 [] false false) [[SPut 4 [42]%N]] m in
+  let robot := Creator true 77 0 false in let user := Creator true 8 0 false in
+  let h := [PSubmit user 1 (mk (SigBy 1 0 msg)) 0; PSubmit user 2 (mk (SigBy 2 0 msg)) 0;
+            PBatch user [1]; PBatch robot [1; 2]]%N in
+  let '(l, out) := p_run e ∅ h in
+  (out, led_get l (dk 1), led_get l (pk 1)) =
+  ([RRecorded; RAuth EBadSig; RGate GUnauthorized;
+    RItems [IOk [(dk 1, [42]%N, false)] [] []; IErr INotFound]], [42]%N, []).
+Proof. exact pipeline_example. Qed.
